@@ -190,10 +190,42 @@ def _pp(paths, pkey, k):
     return "<unknown position>"
 
 
+def big_trees():
+    """Hand-shaped larger trees (beyond the exhaustive bound) against size-triggered shortcuts: a 13-wide tuple,
+    a depth-8 chain, a 3-level mixed tree, tuples of tuples."""
+    L = ("ZL", (("v", 0),))
+    F_ = ("ZF", ())
+
+    def V(*xs):
+        return ("ZV", (("items", tuple(xs)),))
+
+    def M(a, items, b):
+        return ("ZM", (("a", a), ("items", tuple(items)), ("b", b)))
+
+    chain = L
+    for i in range(7):
+        chain = ("ZO", (("c", chain),)) if i % 2 else ("ZU", (("c", chain),))
+    m1 = M(L, (L, F_), L)
+    m2 = M(V(L, L), (m1, L), V(F_))
+    return [
+        V(*([L] * 13)),
+        chain,
+        m2,
+        M(m2, (V(L, L, L), ("ZD", (("c", m1), ("more", (L, F_))))), L),
+        V(V(L, L, L), V(L, F_, L), V(L, L, L), V()),
+        ("ZX", (("pair", (L, V(L, ("ZX", (("pair", (L, L)),)), L))),)),
+    ]
+
+
 def run_shard(cfg):
     rec = Rec(cfg)
     U = zoo.universe(zoo.U_TRAV)
     idx = 0
+    for j, d in enumerate(big_trees()):
+        if j % cfg["of"] == cfg["k"]:
+            rec.rank = 10**9 + j
+            rec.count("big_trees")
+            check_tree(U, d, None, rec, light=False)
     for n in range(1, cfg["n"] + 1):
         for d in U.trees(n):
             mine = idx % cfg["of"] == cfg["k"]
